@@ -330,53 +330,53 @@ theorem path_strip_correct (cfg : Cfg) (path pat : Bytes) (h : pathPatterns cfg 
 
 /-- K13a: two earlier keys that merely end in the parameter name exhaust the scanner's two probes -/
 theorem query_scan_asis_witness :
-    extractFromQueryAsIs (s "v") (s "xv=v1&yv=v9&v=v2") = .notFound ∧
-    queryFirst (s "xv=v1&yv=v9&v=v2") (s "v") = some (s "v2") := by decide
+    extractFromQueryAsIs vb!"v" vb!"xv=v1&yv=v9&v=v2" = .notFound ∧
+    queryFirst vb!"xv=v1&yv=v9&v=v2" vb!"v" = some vb!"v2" := by decide
 
 /-- K13a: the shipped scanner decoded neither key nor value -/
 theorem query_scan_asis_no_decoding :
-    extractFromQueryAsIs (s "v") (s "%76=v2") = .notFound ∧ queryFirst (s "%76=v2") (s "v") = some (s "v2") ∧
-    extractFromQueryAsIs (s "v") (s "v=v%32") = .found (s "v%32") ∧
-    queryFirst (s "v=v%32") (s "v") = some (s "v2") := by decide
+    extractFromQueryAsIs vb!"v" vb!"%76=v2" = .notFound ∧ queryFirst vb!"%76=v2" vb!"v" = some vb!"v2" ∧
+    extractFromQueryAsIs vb!"v" vb!"v=v%32" = .found vb!"v%32" ∧
+    queryFirst vb!"v=v%32" vb!"v" = some vb!"v2" := by decide
 
 /-- K13b: a media type shorter than prefix+suffix that has both: slice bounds out of range -/
 theorem accept_scan_asis_panics :
-    extractFromAcceptAsIs (s "application/vnd.api+") (s "+json") (s "application/vnd.api+json") = .panic ∧
-    extractFromAccept (s "application/vnd.api+") (s "+json") (s "application/vnd.api+json") = none := by decide
+    extractFromAcceptAsIs vb!"application/vnd.api+" vb!"+json" vb!"application/vnd.api+json" = .panic ∧
+    extractFromAccept vb!"application/vnd.api+" vb!"+json" vb!"application/vnd.api+json" = none := by decide
 
 /-- K13d: optional white space before the parameter separator hid the version -/
 theorem accept_scan_asis_ows :
-    extractFromAcceptAsIs (s "application/vnd.api.") (s "+json") (s "application/vnd.api.v2+json ;q=0.9") = .notFound ∧
-    extractFromAccept (s "application/vnd.api.") (s "+json") (s "application/vnd.api.v2+json ;q=0.9") = some (s "v2") := by
+    extractFromAcceptAsIs vb!"application/vnd.api." vb!"+json" vb!"application/vnd.api.v2+json ;q=0.9" = .notFound ∧
+    extractFromAccept vb!"application/vnd.api." vb!"+json" vb!"application/vnd.api.v2+json ;q=0.9" = some vb!"v2" := by
   decide
 
 def cfgSunset : Cfg :=
-  { opts := [.query (s "v")], dflt := s "v1", valid := [], sendVersionHeader := true, sendWarning299 := false,
+  { opts := [.query vb!"v"], dflt := vb!"v1", valid := [], sendVersionHeader := true, sendWarning299 := false,
     enforceSunset := true, now := 1750000000,
-    lifecycles := [(s "v1", { deprecated := false, sunset := some (1749913600, s "Sat, 14 Jun 2025 15:06:40 GMT", s "2025-06-14T15:06:40Z"), migration := [] })] }
+    lifecycles := [(vb!"v1", { deprecated := false, sunset := some (1749913600, vb!"Sat, 14 Jun 2025 15:06:40 GMT", vb!"2025-06-14T15:06:40Z"), migration := [] })] }
 
 /-- K13c: past its sunset date under enforcement, but not marked deprecated: the shipped code served it -/
-theorem sunset_asis_witness : isSunsetAsIs cfgSunset (s "v1") = false ∧ gone cfgSunset (s "v1") = true ∧
-    (setLifecycleHeaders cfgSunset (s "v1")).2 = true := by decide
+theorem sunset_asis_witness : isSunsetAsIs cfgSunset vb!"v1" = false ∧ gone cfgSunset vb!"v1" = true ∧
+    (setLifecycleHeaders cfgSunset vb!"v1").2 = true := by decide
 
 /-! ### non-vacuity: the hypotheses of the theorems are met by concrete non-trivial inputs -/
 
 def cfgEx : Cfg :=
-  { opts := [.path (s "/v{version}/"), .header (s "X-API-Version"), .query (s "v"),
-             .accept (s "application/vnd.api.v{version}+json"), .custom 0],
-    dflt := s "v1", valid := [s "v1", s "v2"], sendVersionHeader := true, sendWarning299 := true,
+  { opts := [.path vb!"/v{version}/", .header vb!"X-API-Version", .query vb!"v",
+             .accept vb!"application/vnd.api.v{version}+json", .custom 0],
+    dflt := vb!"v1", valid := [vb!"v1", vb!"v2"], sendVersionHeader := true, sendWarning299 := true,
     enforceSunset := true, now := 1750000000,
-    lifecycles := [(s "v2", { deprecated := true, sunset := some (1760000000, s "H", s "R"), migration := s "https://m" })] }
+    lifecycles := [(vb!"v2", { deprecated := true, sunset := some (1760000000, vb!"H", vb!"R"), migration := vb!"https://m" })] }
 
 def routesEx : List Route :=
-  [{ ver := some (s "v1"), method := s "GET", path := s "/users" },
-   { ver := some (s "v2"), method := s "GET", path := s "/users" },
-   { ver := none, method := s "GET", path := s "/health" }]
+  [{ ver := some vb!"v1", method := vb!"GET", path := vb!"/users" },
+   { ver := some vb!"v2", method := vb!"GET", path := vb!"/users" },
+   { ver := none, method := vb!"GET", path := vb!"/health" }]
 
 /-- path says v9 (invalid), header says v3 (invalid), query says v2 (valid): v2 wins, `/v9/users` is stripped -/
 def reqEx : Req :=
-  { method := s "GET", path := s "/v9/users", rawQuery := s "xv=v1&v=v2",
-    lib := [.none, .header (s "v3"), .query true (s "v2"), .accept (s "application/vnd.api.v1+json ;q=0.9"), .custom []] }
+  { method := vb!"GET", path := vb!"/v9/users", rawQuery := vb!"xv=v1&v=v2",
+    lib := [.none, .header vb!"v3", .query true vb!"v2", .accept vb!"application/vnd.api.v1+json ;q=0.9", .custom []] }
 
 theorem cfgEx_valid : ValidCfg cfgEx := by
   refine ⟨by decide, ?_⟩
@@ -397,19 +397,19 @@ theorem reqEx_valid : ValidReq cfgEx reqEx := by
 example : libAgrees cfgEx reqEx = true := by decide
 
 /-- the example exercises precedence, rejection by the valid list, stripping and deprecation headers -/
-example : (serve cfgEx routesEx reqEx).handler = some (some (s "v2"), s "/users") ∧
-    (serve cfgEx routesEx reqEx).version = some (s "v2") ∧
-    (serve cfgEx routesEx reqEx).hDeprecation = some (s "true") ∧
-    selected cfgEx reqEx = s "v2" := by decide
+example : (serve cfgEx routesEx reqEx).handler = some (some vb!"v2", vb!"/users") ∧
+    (serve cfgEx routesEx reqEx).version = some vb!"v2" ∧
+    (serve cfgEx routesEx reqEx).hDeprecation = some vb!"true" ∧
+    selected cfgEx reqEx = vb!"v2" := by decide
 
 example : specOK cfgEx routesEx reqEx (serve cfgEx routesEx reqEx) = true :=
   serve_meets_spec cfgEx routesEx reqEx cfgEx_valid reqEx_valid (by decide)
 
 /-- `sunset_410_no_handler` is not vacuous -/
-example : routed ([{ ver := some (s "v1"), method := s "GET", path := s "/users" }] : List Route) none (s "GET") (s "/users") = none ∧
-    gone cfgSunset (s "v1") = true := by decide
+example : routed ([{ ver := some vb!"v1", method := vb!"GET", path := vb!"/users" }] : List Route) none vb!"GET" vb!"/users" = none ∧
+    gone cfgSunset vb!"v1" = true := by decide
 
 /-- `unversioned_wins` is not vacuous -/
-example : routed routesEx none (s "GET") (s "/health") = some (s "/health") := by decide
+example : routed routesEx none vb!"GET" vb!"/health" = some vb!"/health" := by decide
 
 end Rivaas.C13
